@@ -162,7 +162,7 @@ Definition deny (m : mode) (reason : str) : json :=
   end.
 
 (* ------------------------------------------------------------------ configuration, as far as main() sees it *)
-Record rule := { r_decision : str; r_pattern : str; r_message : option str }.
+Record rule := { r_decision : str; r_pattern : str; r_message : option str; r_exact : bool }.
 
 (* S = what the shell analysis reads (rules, redirect_rules, aliases, default);
    G = what configure_logging reads (log, log_full) *)
